@@ -244,7 +244,7 @@ fn c25_o1_packed_leaf() {
     }
     kani::cover!(PackedQueryEdge::new(e).is_some());
     kani::cover!(PackedQueryEdge::new(e).is_none());
-    kani::cover!(PackedQueryEdge::new(e).is_some() && r.ingredient > 0xFF && r.generation > 0xFFFF);
+    kani::cover!(PackedQueryEdge::new(e).is_some() && r.ingredient > 1 && r.generation > 1);
 }
 
 // @verif prop=C25 obl=O1 tier=quick bounds="all values: all 2x2x2 derived tag combinations and both assigned tags"
